@@ -117,6 +117,17 @@ def run_case(ctx, rng, idx):
                 E = expected(S, kind, keep_edge, [n for n in nodes if n in sel_nodes])
                 judge(ctx, f"get_edges(subhypergraph,keep_isolated={keep})", g, E, lambda: wit((kw, keep)))
     unchanged("get_edges(subhypergraph)")
+    # diagnostic only (C05 claims later-mutation independence for copy(), not for extractions): does a structural
+    # edit of an extraction show in its source?
+    try:
+        g = h.get_edges(subhypergraph=True, keep_isolated_nodes=True)
+        mark = "__caller_edit__" if any(isinstance(n, str) for n in S.nodes) else -424242
+        g.add_node(mark)
+        if mark in h.get_nodes():
+            ctx.note("diagnostic:extraction-shares-structure-with-its-source")
+            h.remove_node(mark)
+    except Exception:
+        pass
 
     # ---- copy: equal, independent both ways -------------------------------------------------
     c = h.copy()
